@@ -803,6 +803,11 @@ func (e *c20Engine) execute(t *kit.Trace, srng *kit.Rng, st *kit.Stats, record b
 	if t.Cfg(stmtEveryKey, 0) > 0 {
 		maxSteps *= 6
 	}
+	// The bound is the liveness oracle ("every operation returns within B
+	// scheduler steps"); it is deliberately an order of magnitude above
+	// anything a correct run needs, so that it can only be hit by a task
+	// that really spins.
+	maxSteps *= 10
 	var s *sched.Sched
 	if srng != nil {
 		s = sched.New(nt, srng, nil, maxSteps)
